@@ -252,6 +252,124 @@ func (e *env) run(family string, ti int, in codecx.Input) {
 	e.judge(c, pred, o, len(in.Bytes()), family)
 }
 
+// runService evaluates one ua.DecodeService case (in-process only: inputs the model predicts to be expensive are skipped).
+func (e *env) runService(family string, b []byte) {
+	c := "service " + h.Hex(b)
+	e.r.Hit("family:" + family)
+	pred := ""
+	if e.d != nil {
+		pred = e.d.Ask(fmt.Sprintf("decsvc %d %d %s", fuel, modelLimit, h.Hex(b)))
+		if pred == "fail diverge" || pred == "fail depth" || pred == "fail alloc" {
+			e.r.Hit("skipped:service-resource")
+			return
+		}
+	}
+	o := codecx.DecodeServiceInProc(b)
+	e.r.Hit("ran:service")
+	if o.Res == "fail hang" || o.Res == "fail memory" {
+		// no child mode for services: report and stop (the goroutine cannot be stopped)
+		e.r.Fail(trunc(c, 2000), "", "DecodeService did not return: "+o.Res)
+		e.r.Notes = append(e.r.Notes, "run stopped early: an in-process DecodeService did not return: "+trunc(c, 200))
+		e.r.Write(e.o.Out)
+		panic("stop")
+	}
+	e.r.Count(c, o.Res != "fail err")
+	e.judge(c, pred, o, len(b), family)
+}
+
+// nodeIDWire is a NodeID with the given encoding byte: the low nibble selects the layout (0..5, otherwise only the
+// byte itself), the upper four bits are as given. With exp the ExpandedNodeID tail follows (namespace URI if 0x80,
+// server index if 0x40).
+func nodeIDWire(enc byte, ns uint16, id uint32, exp bool) []byte {
+	b := []byte{enc}
+	switch enc & 0xf {
+	case 0:
+		b = append(b, byte(id))
+	case 1:
+		b = append(b, byte(ns), byte(id), byte(id>>8))
+	case 2:
+		b = append(append(b, byte(ns), byte(ns>>8)), le(id)...)
+	case 3, 5:
+		b = append(append(append(b, byte(ns), byte(ns>>8)), le(2)...), 'a', 'b')
+	case 4:
+		b = append(append(b, byte(ns), byte(ns>>8)), rep(byte(id), 16)...)
+	}
+	if exp {
+		if enc&0x80 != 0 {
+			b = append(append(b, le(1)...), 'u')
+		}
+		if enc&0x40 != 0 {
+			b = append(b, le(7)...)
+		}
+	}
+	return b
+}
+
+// nodeIDBits puts every combination of the upper four bits of the NodeID encoding byte (namespace-URI and
+// server-index flags and the two reserved bits), with every layout, into every position where a NodeID or
+// ExpandedNodeID is decoded: standalone, ExtensionObject type id (registered and unknown, with a body: the registry
+// lookup), service type id (ua.DecodeService: the service registry lookup), Variant scalars and arrays of NodeID /
+// ExpandedNodeID / ExtensionObject, and DataValue → Variant → ExtensionObject.
+func (e *env) nodeIDBits() {
+	tN, tE, tX, tV, tD := e.target("*ua.NodeID"), e.target("*ua.ExpandedNodeID"), e.target("*ua.ExtensionObject"), e.target("*ua.Variant"), e.target("*ua.DataValue")
+	eoIDs := []uint32{121, 631, 0} // TwoByte-range registered type, FourByte-range registered type, unknown
+	numID := func(s string) uint32 {
+		var v uint32
+		if _, err := fmt.Sscanf(s, "i=%d", &v); err != nil {
+			return 0
+		}
+		return v
+	}
+	if ts := ua.VerifExtensionObjectTypes(); len(ts) > 0 {
+		eoIDs[1] = numID(ts[len(ts)/2].ID)
+		for _, t := range ts {
+			if v := numID(t.ID); v > 0 && v < 256 {
+				eoIDs[0] = v
+			}
+		}
+	}
+	svc := ua.VerifServiceTypes()
+	svcIDs := []uint32{0}
+	if len(svc) > 0 {
+		svcIDs = append(svcIDs, numID(svc[0].ID), numID(svc[e.rnd.Intn(len(svc))].ID), numID(svc[e.rnd.Intn(len(svc))].ID))
+	}
+	body := func(n int) []byte { return append(le(uint32(n)), rep(0, n)...) }
+	for hi := 0; hi < 16; hi++ {
+		for typ := 0; typ < 8; typ++ {
+			enc := byte(hi<<4 | typ)
+			if typ == 6 {
+				enc = byte(hi<<4 | 0xf)
+			}
+			e.run("nodeid-bits", tN, codecx.Plain(nodeIDWire(enc, 0, 5, false)))
+			e.run("nodeid-bits", tE, codecx.Plain(nodeIDWire(enc, 0, 5, true)))
+			e.run("nodeid-bits", tV, codecx.Plain(append([]byte{0x11}, nodeIDWire(enc, 1, 5, false)...)))
+			e.run("nodeid-bits", tV, codecx.Plain(append([]byte{0x12}, nodeIDWire(enc, 1, 5, true)...)))
+			e.run("nodeid-bits", tV, codecx.Plain(append(append([]byte{0x91}, le(2)...), append(nodeIDWire(enc, 0, 9, false), nodeIDWire(enc, 2, 9, false)...)...)))
+			e.run("nodeid-bits", tV, codecx.Plain(append(append([]byte{0x92}, le(2)...), append(nodeIDWire(enc, 0, 9, true), nodeIDWire(enc, 2, 9, true)...)...)))
+			for _, ns := range []uint16{0, 1} {
+				for _, id := range eoIDs {
+					for _, bl := range []int{0, 4, 40} {
+						x := append(append(nodeIDWire(enc, ns, id, true), 1), body(bl)...)
+						e.run("nodeid-bits", tX, codecx.Plain(x))
+						if bl == 4 && ns == 0 {
+							e.run("nodeid-bits", tV, codecx.Plain(append([]byte{0x16}, x...)))
+							e.run("nodeid-bits", tV, codecx.Plain(append(append([]byte{0x96}, le(2)...), append(append([]byte{}, x...), x...)...)))
+							e.run("nodeid-bits", tD, codecx.Plain(append([]byte{0x01, 0x16}, x...)))
+						}
+					}
+					// no body / XML body: no registry lookup
+					e.run("nodeid-bits", tX, codecx.Plain(append(nodeIDWire(enc, ns, id, true), 0)))
+				}
+				for _, id := range svcIDs {
+					for _, bl := range []int{0, 24, 200} {
+						e.runService("nodeid-bits", append(nodeIDWire(enc, ns, id, true), rep(0, bl)...))
+					}
+				}
+			}
+		}
+	}
+}
+
 func trunc(s string, n int) string {
 	if len(s) > n {
 		return s[:n] + "…"
@@ -598,6 +716,11 @@ func main() {
 	}()
 	if o.Replay != "" {
 		ty, hx := splitCase(strings.TrimPrefix(o.Replay, "dec "))
+		if ty == "service" {
+			if in, err := codecx.ParseInput(hx); err == nil {
+				e.runService("replay", in.Bytes())
+			}
+		}
 		for i, t := range e.targets {
 			if t.Ty == ty {
 				in, _ := codecx.ParseInput(hx)
@@ -614,6 +737,7 @@ func main() {
 	}
 	phase("corpus", e.corpus)
 	phase("directed", e.directed)
+	phase("nodeid-bits", e.nodeIDBits)
 	phase("variant-grid", e.variantGrid)
 	phase("mutations", func() { e.mutations(g) })
 	phase("random", e.random)
